@@ -39,7 +39,10 @@ pub fn calculate_shift<F: RawFloat>(power2: i32) -> i32 {
 #[cfg(feature = "power-of-two")]
 pub fn calculate_power2<F: RawFloat, const FORMAT: u128>(exponent: i64, ctlz: u32) -> i32 {
     let format = NumberFormat::<{ FORMAT }> {};
-    exponent as i32 * log2(format.exponent_base()) + F::EXPONENT_BIAS - ctlz as i32
+    // The exponent can exceed an `i32` (it is only saturated near `2^28 * radix`),
+    // so clamp it far beyond any representable power before scaling it.
+    let exponent = exponent.clamp(-0x1000_0000, 0x1000_0000) as i32;
+    exponent * log2(format.exponent_base()) + F::EXPONENT_BIAS - ctlz as i32
 }
 
 /// Bias for marking an invalid extended float.
